@@ -218,6 +218,11 @@ func (e *boundsEngine) linOf(v ssa.Value) lin {
 	if k, ok := core.ConstInt(v); ok {
 		return lin{"", k, nil, true}
 	}
+	if arg := core.LenOf(v); arg != nil {
+		if l := e.lenLin(arg); l.ok {
+			return l
+		}
+	}
 	switch x := v.(type) {
 	case *ssa.BinOp:
 		if x.Op == token.ADD || x.Op == token.SUB {
@@ -1413,6 +1418,16 @@ func (e *boundsEngine) edgeFacts(pred, succ *ssa.BasicBlock) []fact {
 func (e *boundsEngine) valLeq(v ssa.Value, b lin, k int64, facts []fact, use ssa.Instruction, depth int) bool {
 	if e.leq(e.linOf(v), b, k, facts, use) {
 		return true
+	}
+	// the key of `for i := range s` over a string is a valid byte offset of s: i < len(s)
+	if ex, ok := v.(*ssa.Extract); ok && ex.Index == 1 {
+		if nx, ok := ex.Tuple.(*ssa.Next); ok && nx.IsString {
+			if rg, ok := nx.Iter.(*ssa.Range); ok {
+				if l := e.lenLin(rg.X); l.ok && l.term == b.term && l.off == b.off && k >= -1 {
+					return true
+				}
+			}
+		}
 	}
 	if depth > 3 {
 		return false
